@@ -50,6 +50,7 @@ type features struct {
 	Depth              int
 	Hooks              int
 	Fails              bool
+	UsesSet            bool // some templates pass state to later templates through `set .Values`
 	Constructs         map[string]bool
 }
 
@@ -271,6 +272,9 @@ var constructs = []construct{
 	{"toYamlPretty", true, func(c string, n int) string {
 		return fmt.Sprintf("  k%d:\n{{ toYamlPretty .Values.labels | indent 4 }}\n", n)
 	}},
+	{"set-values-trail", false, func(c string, n int) string {
+		return fmt.Sprintf("{{- $_ := set .Values \"trail\" (printf \"%%s>%%s\" (.Values.trail | default \"\") (base .Template.Name)) }}\n  k%dtrail: {{ .Values.trail | quote }}\n", n)
+	}},
 	{"range-nested-maps", true, func(c string, n int) string {
 		return fmt.Sprintf("{{- range $k, $v := .Values.config }}\n  n%d-{{ $k }}: {{ kindOf $v | quote }}\n{{- end }}\n", n)
 	}},
@@ -363,6 +367,9 @@ func genOneChart(rng *rand.Rand, cs *chartSpec, name, prefix string, depth int, 
 				c := constructs[rng.Intn(len(constructs))]
 				b.WriteString(c.text(name, x))
 				f.Constructs[c.name] = true
+				if c.name == "set-values-trail" {
+					f.UsesSet = true
+				}
 				if c.mapRange {
 					f.MapRanges++
 				}
@@ -377,7 +384,12 @@ func genOneChart(rng *rand.Rand, cs *chartSpec, name, prefix string, depth int, 
 	}
 	// notes
 	notes := func(tag string) string {
-		return fmt.Sprintf("NOTES of %s (%s): release {{ .Release.Name }} in {{ .Release.Namespace }}\n{{- range $k, $v := .Values.labels }}\n  {{ $k }}={{ $v }}\n{{- end }}\nname={{ include \"%s.name\" . }} tag={{ include \"common.tag\" . }}\n", name, tag, name)
+		trail := ""
+		if rng.Intn(3) == 0 {
+			trail = "{{- $_ := set .Values \"trail\" (printf \"%s>notes-" + tag + "\" (.Values.trail | default \"\")) }}\ntrail={{ .Values.trail }}\n"
+			f.UsesSet = true
+		}
+		return trail + fmt.Sprintf("NOTES of %s (%s): release {{ .Release.Name }} in {{ .Release.Namespace }}\n{{- range $k, $v := .Values.labels }}\n  {{ $k }}={{ $v }}\n{{- end }}\nname={{ include \"%s.name\" . }} tag={{ include \"common.tag\" . }}\n", name, tag, name)
 	}
 	if rng.Intn(100) < 75 {
 		out[prefix+"templates/NOTES.txt"] = notes("main")
